@@ -712,7 +712,7 @@ def execute(ns, scn):  # noqa: F811
     base = Runner(ns, base_scn).run()
     runs, viol = [], list(base.violations)
     at = 1
-    while at <= 4000:
+    while at <= 400:  # a count, not a clock: the swept set must not depend on machine speed
         s2 = json.loads(json.dumps(base_scn))
         s2["ops"][j]["fault"] = {"kind": "F-crash-line", "at": at}
         r = Runner(ns, s2).run()
@@ -769,6 +769,7 @@ def aggregate(agg, scn, res):
 
 
 def merge(a, b):
+    a["timeouts"] = a.get("timeouts", 0) + b.get("timeouts", 0)
     for key in ("runs", "strict", "ops", "steps", "solver_calls", "violating_runs"):
         a[key] += b[key]
     a["sim_time"] += b["sim_time"]
@@ -931,6 +932,7 @@ def evidence(out, tier, seed, wall, wall_batch, cross, known_hits, violations, w
             "batch_digest": __import__("dst.engine", fromlist=["batch_digest"]).batch_digest(out["digests"]),
             "known_finding_runs": known_hits,
             "violating_runs": agg["violating_runs"],
+            "scenarios_timed_out_inconclusive": agg.get("timeouts", 0),
             "warnings": warn,
             "real_vs_stub": {
                 "real": "all of bluebonnet (reservoir, flowproperties), scipy interp1d / sparse.diags / cumulative_trapezoid / linear solver",
